@@ -250,7 +250,7 @@ Definition nvD_run :=
 Lemma nvD_inner : exists lg w',
   dinner nvPb nvprov (fun _ => []) [Some 0] [Some 1] [] (Lbfgs.state R) nv_lbfgs nv_never nv_never (fun _ => false) nvPP 5 5
          (cnt0, lbfgs_unsized (T:=R)) 0 [0] [0] [1] 1 [0]
-  = Some ({| ir_status := Converged; ir_eps := 0; ir_err := Some [0]; ir_y := Some [0]; ir_iters := 0; ir_oot := false |}, [0], lg, w').
+  = Some ({| ir_status := Converged; ir_eps := 0; ir_err := Some [0]; ir_y := Some [0]; ir_iters := 0; ir_oot := false; ir_stop := false |}, [0], lg, w').
 Proof.
   unfold dinner. cbn [fst snd].
   set (pgf := o_psi_grad_full nvPb nvprov (fun _ => []) [0] [1]).
@@ -290,7 +290,7 @@ Proof.
   assert (Es : s0 = {| s_Sigma := [1]; s_err := [0]; s_err_old := [0]; s_norm_old := 0; s_eps := 1; s_y := [0]; s_fails := 0; s_iters := 0 |})
     by (unfold s0; rcomp; reflexivity).
   assert (Ey : c_y_in nvAP (pb_of nvPb 0) s0 = [0]) by (rewrite Es; rcomp; reflexivity).
-  set (r0 := {| ir_status := Converged; ir_eps := 0; ir_err := Some [0]; ir_y := Some [0]; ir_iters := 0; ir_oot := false |}) in *.
+  set (r0 := {| ir_status := Converged; ir_eps := 0; ir_err := Some [0]; ir_y := Some [0]; ir_iters := 0; ir_oot := false; ir_stop := false |}) in *.
   assert (Ex : f_exhausted (snd (alm_loop nvAP (pb_of nvPb 0) 0 s0 [r0])) = false).
   { rewrite Es. cbv -[Rplus Rminus Rmult Rdiv Rinv Ropp Rle_bool Rlt_bool Req_bool Rabs IZR sqrt]. rewrite Rabs_R0. rbb. reflexivity. }
   rewrite c_loop_S. rewrite Ey.
